@@ -501,6 +501,9 @@ type harnessRange struct {
 	rv5   *big.Int
 	cs    []*big.Int
 	mode  string // "honest", "Cs=0", "Cs=n", "C0=0"
+	// presetMResponse: the range part is made for h.m (which then is NOT the credential's attribute)
+	// and carries the matching m response itself
+	presetMResponse bool
 }
 
 func (h *harnessRange) exp(base, e *big.Int) *big.Int {
@@ -589,6 +592,10 @@ func (h *harnessRange) proof(c *big.Int) *rangeproof.Proof {
 		p.VResponses = append(p.VResponses, new(big.Int).Add(h.rv[i], new(big.Int).Mul(c, h.v[i])))
 	}
 	p.V5Response = new(big.Int).Add(h.rv5, new(big.Int).Mul(c, h.v5))
+	if h.presetMResponse {
+		// an in-memory proof may carry its own m response (the field does not travel in JSON)
+		p.MResponse = new(big.Int).Add(h.rm, new(big.Int).Mul(c, h.m))
+	}
 	return p
 }
 
@@ -683,6 +690,42 @@ func TestVF_C12_DegenerateCommitments(t *testing.T) {
 		for _, mode := range []string{"Cs=0", "Cs=n", "C0=0"} {
 			if !run(mode) {
 				return
+			}
+		}
+		// a range proof about another value m' (true for m', false for the signed m), made with the
+		// attribute's randomiser and carrying its own m response; presented in memory
+		{
+			mp := new(big.Int).Add(m, gap) // m' = m + gap; claim: m >= m + gap/2 ... true for m' only
+			k := new(big.Int).Add(m, bi(1))
+			if sign == -1 {
+				mp = new(big.Int).Sub(m, gap)
+				if mp.Sign() < 0 {
+					mp = bi(0)
+				}
+				k = new(big.Int).Sub(m, bi(1))
+			}
+			ab, err := newAdvBuilder(kp, cred, []int{0, 2, 3}, map[int]*big.Int{1: cred.Attributes[1]})
+			if err != nil {
+				rt.Fatalf("adv: %v", err)
+			}
+			// sign=+1: m' >= m+1 holds for m' = m+gap, not for m; sign=-1: m' <= m-1 holds for m' = m-gap
+			hr := &harnessRange{pk: pk, idx: idx, sign: sign, a: 1, k: k, m: mp, rm: ab.aC[idx], mode: "honest", presetMResponse: true}
+			pl, err := ProofBuilderList{&advRangeWrapper{adv: ab, hr: hr, rt: rt}}.BuildProofList(ctx, nonce, false)
+			if err == nil && !ab.negative && mp.Cmp(m) != 0 {
+				det := map[string]any{"key": kp.Name, "attrs": fmt.Sprint(attrs), "index": idx, "claim": fmt.Sprintf("sign=%d factor=1 k=%s (proved for m'=%s)", sign, k, mp), "mode": "range-part-about-another-value-with-own-m-response(in memory)"}
+				var acc bool
+				ps := vfh.Guard(func() { acc = pl.Verify(keys1(kp), ctx, nonce, false, nil) })
+				rec.Case("harness-range-prover/own-m-response", true, fmt.Sprintf("hm|%s|%v|%d|%d|%s", kp.Name, attrs, idx, sign, mp))
+				if ps != "" {
+					rec.Fail(rt, ps+":harness-range-prover:own-m-response", det)
+					return
+				}
+				if acc {
+					if v := c12Oracle(pl[0].(*ProofD), cred.Attributes); v != "" {
+						rec.Fail(rt, v+":own-m-response", det)
+						return
+					}
+				}
 			}
 		}
 		// factor 2^64 - f: the relation is computed with the machine integer -f, so that
